@@ -850,6 +850,10 @@ pub fn c08(o: &Opts, t: &mut Tracer) -> Value {
             let mut guard = 0;
             loop {
                 guard += 1;
+                if pos > n {
+                    t.ev(json!({"ev":"stuck","during":"streaming a length-delimited body (more bytes consumed than the body has)"}));
+                    break;
+                }
                 let rest = n - pos;
                 let window: Vec<u8>;
                 let w: &[u8] = if rest >= big.len() as u64 {
